@@ -209,6 +209,42 @@ class ORMatic:
     def make_all_tables(self):
         for table in self.wrapped_tables.values():
             table.parse_fields()
+        self._check_generated_names()
+
+    def _check_generated_names(self):
+        """
+        Raise an error that names the clash if two tables would get the same name or if the fields of a class
+        produce the same attribute of its DAO twice, instead of writing a module that cannot be imported or that
+        silently loses a column.
+        """
+        table_names = [table.tablename for table in self.wrapped_tables.values()]
+        table_names += [association.name for association in self.association_tables]
+        clashes = sorted({name for name in table_names if table_names.count(name) > 1})
+        if clashes:
+            raise ValueError(
+                f"Several classes or collection fields would be stored in a table of the same name: {clashes}. "
+                f"Rename one of the classes or fields."
+            )
+
+        for table in self.wrapped_tables.values():
+            names = [table.primary_key_name] + [
+                column.name
+                for column in (
+                    *table.builtin_columns,
+                    *table.custom_columns,
+                    *table.foreign_keys,
+                    *table.relationships,
+                )
+            ]
+            clashes = sorted(
+                {name for name in names if names.count(name) > 1 or name == "metadata"}
+            )
+            if clashes:
+                raise ValueError(
+                    f"The fields of {table.wrapped_clazz.clazz} would define the attribute(s) {clashes} of "
+                    f"{table.tablename} more than once or use a name that SQLAlchemy reserves. "
+                    f"Note that a reference 'x' is stored in the column 'x{self.foreign_key_postfix}'. Rename the field."
+                )
 
     def foreign_key_name(self, wrapped_field: WrappedField) -> str:
         """
